@@ -542,6 +542,15 @@ impl Array {
 
 impl Display for Object {
     fn fmt(&self, f: &mut std::fmt::Formatter<'_>) -> std::fmt::Result {
+        self.write(f, &mut Vec::new())
+    }
+}
+
+impl Object {
+    /// Writes the textual form of this object.
+    /// `open` holds the arrays that are being written right now: an array can contain itself
+    /// (directly or through other arrays), such an inner occurrence is written as [...]
+    fn write(&self, f: &mut std::fmt::Formatter<'_>, open: &mut Vec<*mut u8>) -> std::fmt::Result {
         match self.tag() {
             Type::Null => (),
             Type::Bool => f.write_str(if self.as_bool() { "ja" } else { "nee" })?,
@@ -549,15 +558,22 @@ impl Display for Object {
             Type::Int => f.write_str(&self.as_int().to_string())?,
             Type::String => unsafe { f.write_str(self.as_str_unchecked())? },
             Type::Array => {
+                if open.contains(&self.as_ptr()) {
+                    return f.write_str("[...]");
+                }
+                open.push(self.as_ptr());
+
                 let values = unsafe { self.as_vec_unchecked() };
                 f.write_char('[')?;
                 for (i, obj) in values.iter().enumerate() {
                     if i > 0 {
                         f.write_str(", ")?;
                     }
-                    std::fmt::Display::fmt(&obj, f)?;
+                    obj.write(f, open)?;
                 }
                 f.write_char(']')?;
+
+                open.pop();
             }
             Type::Function => f.write_str("functie")?,
         }
